@@ -104,7 +104,11 @@ func unary(env *wl.Env, rpc string) error {
 	return nil
 }
 
-var workloads = map[string]func(env *wl.Env){
+var workloads map[string]func(env *wl.Env)
+
+func init() { workloads = workloadTable; Workloads = workloads }
+
+var workloadTable = map[string]func(env *wl.Env){
 	"unary": func(env *wl.Env) { _ = unary(env, "/uA") },
 	"unary2": func(env *wl.Env) {
 		if unary(env, "/uA") == nil {
@@ -160,6 +164,16 @@ var workloads = map[string]func(env *wl.Env){
 			}
 		}
 		_ = s.Close()
+	},
+	// RPC 1 ends by itself and its context is cancelled at the same moment; RPC 2 is a server stream
+	// whose receives are pending when the transport fails
+	"cleancancel-then-sstream": func(env *wl.Env) {
+		ctx, cancel := context.WithCancel(context.Background())
+		if s, err := env.Conn.NewStream(ctx, "/csC", enc.Bytes{}); err == nil {
+			_ = s.Close()
+			wl.Cancel(cancel)
+		}
+		workloads["sstream"](env)
 	},
 	// three goroutines call Invoke at once: one RPC in flight, two queued behind it
 	"concurrent3": func(env *wl.Env) {
@@ -332,9 +346,9 @@ func calls(cfg wl.Config, wname string) (cw, cr, sw, sr int, payloads map[string
 	return n[0], n[1], n[2], n[3], payloads
 }
 
-func plans(tier string) []mc.Plan {
+func basePlans(tier string) []mc.Plan {
 	var ps []mc.Plan
-	wnames := []string{"unary", "cstream", "sstream", "bidi", "unread", "concurrent3"}
+	wnames := []string{"unary", "cstream", "sstream", "bidi", "unread", "concurrent3", "cleancancel-then-sstream"}
 	if tier == "thorough" {
 		wnames = append(wnames, "unary2")
 	}
@@ -392,13 +406,23 @@ func plans(tier string) []mc.Plan {
 	return ps
 }
 
+// plans adds, to every scenario, a twin explored relative to the reversed default schedule (a
+// second reference schedule for the deviation bound).
+func plans(tier string) []mc.Plan {
+	ps := basePlans(tier)
+	if tier == "thorough" {
+		return mc.WithReversed(ps, 1)
+	}
+	return mc.WithReversed(ps, 0)
+}
+
 func init() {
 	mc.Register(&mc.Check{ID: "C05", Plans: plans, Budget: map[string]int{"quick": 150, "thorough": 1800},
 		Notes: "C05: for every transport call index k of a fault-free default run (+1), endpoint, read/write and fault kind (error return, error after j bytes, peer close, local close) the workload is re-run with that fault armed under every schedule within the bound; oracle: no panic, every pending call returns, later calls fail, connection reports closed, delivered data is a correct per-stream prefix."})
 }
 
 // Exported for the checks that reuse the workloads (C12).
-var Workloads = workloads
+var Workloads map[string]func(env *wl.Env)
 
 // Handler is the tagged multi-shape handler of the workloads.
 func Handler(env *wl.Env, stream drpc.Stream, rpc string) error { return handler(env, stream, rpc) }
